@@ -8,6 +8,7 @@ mod k_errtab;
 mod k_fmt;
 mod k_lex;
 mod k_mm;
+mod k_nv;
 mod k_queue;
 mod k_tree;
 mod util;
@@ -27,6 +28,7 @@ fn dispatch(kind: &str, args: &[&str]) -> String {
         "lex" => k_lex::run(args),
         "conv" => k_conv::run(args),
         "fmt" => k_fmt::run(args),
+        "nv" => k_nv::run(args),
         "tree" => k_tree::run(args),
         _ => format!("UNKNOWN-KIND {}", kind),
     }
